@@ -129,7 +129,7 @@ func compareRaw(out []byte, mode int, w Want) (diffs []Diff, got Inst) {
 			glf, gd := g.Mem.Linear()
 			wlf, wd := wo.Mem.Linear()
 			if lfString(glf, gd) != lfString(wlf, wd) {
-				add("ea", "address", fmt.Sprintf("got %s want %s; decoded %s from % X", lfString(glf, gd), lfString(wlf, wd), got, out))
+				add("ea", eaDev(g.Mem, wo.Mem), fmt.Sprintf("got %s want %s; decoded %s from % X", lfString(glf, gd), lfString(wlf, wd), got, out))
 			} else if g.Mem.AddrSize != wo.Mem.AddrSize {
 				add("addr_prefix", fmt.Sprintf("addrsize got:%d want:%d", g.Mem.AddrSize, wo.Mem.AddrSize), fmt.Sprintf("decoded %s from % X", got, out))
 			}
@@ -176,4 +176,59 @@ func headHex(b []byte) string {
 		return fmt.Sprintf("%X", b)
 	}
 	return fmt.Sprintf("%X..", b[:2])
+}
+
+// eaDev describes HOW a decoded address differs from the written one, role by role
+// (base/index are interchangeable at scale 1; the better of the two assignments is described).
+func eaDev(g *Mem, w MemSpec) string {
+	wsc := w.Scale
+	if w.Index == "" {
+		wsc = 0
+	} else if wsc == 0 {
+		wsc = 1
+	}
+	gsc := g.Scale
+	if g.Index == "" {
+		gsc = 0
+	}
+	rel := func(got, want string) string {
+		switch {
+		case got == want:
+			return "ok"
+		case got == "":
+			return "lost"
+		case want == "":
+			return "extra"
+		}
+		return "wrong"
+	}
+	desc := func(wb, wi string) (string, int) {
+		parts := []string{"base=" + rel(g.Base, wb), "index=" + rel(g.Index, wi)}
+		bad := 0
+		for _, p := range parts {
+			if !strings.HasSuffix(p, "=ok") {
+				bad++
+			}
+		}
+		return strings.Join(parts, " "), bad
+	}
+	d1, b1 := desc(w.Base, w.Index)
+	if wsc == 1 {
+		if d2, b2 := desc(w.Index, w.Base); b2 < b1 {
+			d1 = d2
+		}
+	}
+	sc := "ok"
+	if gsc != wsc {
+		sc = fmt.Sprintf("%d_for_%d", gsc, wsc)
+	}
+	mask := int64(1)<<uint(w.AddrSize) - 1
+	dd := "ok"
+	if (g.Disp^w.Disp)&mask != 0 {
+		dd = "wrong"
+		if g.Disp == 0 {
+			dd = "lost"
+		}
+	}
+	return fmt.Sprintf("%s scale=%s disp=%s addr=%d_for_%d", d1, sc, dd, g.AddrSize, w.AddrSize)
 }
